@@ -123,6 +123,27 @@ let run_line line =
                 Printf.printf "%s\tOUT %s\tDISK %s\n" res (pstr st.m_world.w_out) (String.concat ";" (List.map (fun (nm, bs) -> pstr nm ^ "=" ^ show_bytes bs) st.m_world.w_disk))
             | _ -> print_endline "SKIP")
        | _ -> print_endline "BADLINE")
+    end else if inp = "IM" then begin
+      (* IM <disk: name=bytes;... or -> TAB <stdin lines | -> TAB <code points of the program text> : run_main_fs (programs that import module files),
+         reported like a plain run: result or error with its spans, output, input left, observer events *)
+      (match String.split_on_char '\t' prog with
+       | [dk; sin; text] ->
+           let bytes_of s = if s = "e" then [] else List.map (fun c -> n_of_int (int_of_string c)) (String.split_on_char '.' s) in
+           let disk = if dk = "-" then [] else List.map (fun ent -> match String.split_on_char '=' ent with [nm; bs] -> (cps nm, bytes_of bs) | _ -> failwith "bad disk entry") (String.split_on_char ';' dk) in
+           let lines = if sin = "-" then [] else List.map cps (String.split_on_char '|' sin) in
+           (match parse_text (cps text) with
+            | Inl [a] ->
+                let (o, st) = run_main_fs fuel a lines disk in
+                let res = match o with
+                  | ODone (VStr s) -> "V " ^ pstr s
+                  | ODone _ -> "V?"
+                  | OErr e when (match e.e_vals with [VInt _; VInt n] -> BZ.equal (bz_of_z n) (BZ.of_int 999) | _ -> false) -> "UNMODELLED"
+                  | OErr e -> "E " ^ String.concat "," (List.map (function VInt n -> BZ.to_string (bz_of_z n) | _ -> "?") e.e_vals) ^ " @" ^ String.concat ";" (List.map pspan e.e_spans)
+                  | OLimit -> "LIMIT" | OFuel -> "FUEL" | OStuck _ -> "STUCK" in
+                let evs = List.rev_map (function EB (d, _, sp) -> Printf.sprintf "B%d@%s" (int_of_nat d) (pspan sp) | EA (d, _, sp, k) -> Printf.sprintf "A%d@%s#%d" (int_of_nat d) (pspan sp) (int_of_n k)) st.m_dbg.events in
+                Printf.printf "%s\tOUT %s\tREST %d\tEV %s\n" res (pstr st.m_world.w_out) (List.length st.m_world.w_in) (String.concat " " evs)
+            | _ -> print_endline "SKIP")
+       | _ -> print_endline "BADLINE")
     end else if inp = "P" then begin
       match parse_text (cps prog) with
       | Inl asts -> print_endline ("OK " ^ String.concat " | " (List.map ser asts))
